@@ -211,6 +211,9 @@ func CalleeName(fn *ssa.Function) string {
 	if s := ShortName(fn); s != "" {
 		return s
 	}
+	if o := fn.Origin(); o != nil {
+		return o.String() // generic instance: name of the generic function, without type arguments
+	}
 	return fn.String()
 }
 
